@@ -143,6 +143,9 @@ def vmodelTuple (isComponent : Bool) (attrValue : Node) (argument : Option Node)
 
 def vmodelFinish (isComponent : Bool) (t : St × Node × Option Node × Option (List String)) : Dir × St :=
   let (st, value, argument, modifiers) := t
+  let (value, st) : Node × St :=
+    if isAssignmentTarget value then (value, st)
+    else (nEmptyIdent, st.err "Error: The value of `v-model` must be an assignable expression (an identifier or a member expression).")
   let nonEmpty := match modifiers with | some m => !m.isEmpty | none => false
   let transformed :=
     if !isComponent && nonEmpty then (match argument with | some a => some a | none => some nVoid0)
@@ -210,6 +213,39 @@ theorem transformedArg_rel (b : Bool) (a1 a2 : Option Node) : OptRel a1 a2 →
   · cases a1 <;> cases a2 <;> simp_all [OptRel]
     exact HintRel.refl _
 
+/-- assignability is decided by kinds (and the kinds under parentheses / TypeScript wrappers), which related trees share -/
+theorem isAssignmentTarget_rel : ∀ (n : Nat) (a b : Node), sizeOf a ≤ n → HintRel a b → isAssignmentTarget a = isAssignmentTarget b := by
+  intro n
+  induction n with
+  | zero => intro a b hsz _; cases a; simp at hsz
+  | succ n ih =>
+    intro a b hsz h
+    cases h with
+    | vnode => simp [isAssignmentTarget]
+    | node k as hl =>
+      rename_i ks1 ks2
+      cases k <;> try (simp [isAssignmentTarget]; done)
+      case paren =>
+        rcases hl with _ | ⟨h1, _ | ⟨h2, hl⟩⟩
+        · simp [isAssignmentTarget]
+        · rename_i x y
+          simp only [isAssignmentTarget]
+          exact ih x y (by simp at hsz; omega) h1
+        · simp [isAssignmentTarget]
+      case other tag =>
+        rcases hl with _ | ⟨h1, _ | ⟨h2, _ | ⟨h3, hl⟩⟩⟩
+        · by_cases t1 : tag = "SuperPropExpression" <;> simp [isAssignmentTarget, t1]
+        · rename_i x y
+          have hx := ih x y (by simp at hsz; omega) h1
+          unfold isAssignmentTarget
+          split <;> (try simp_all) <;> split <;> simp_all
+        · rename_i x y x2 y2
+          have hx := ih x y (by simp at hsz; omega) h1
+          unfold isAssignmentTarget
+          split <;> (try simp_all) <;> split <;> simp_all
+        · unfold isAssignmentTarget
+          split <;> (try simp_all) <;> split <;> simp_all
+
 theorem vmodelFinish_rel (c : Bool) {t1 t2 : St × Node × Option Node × Option (List String)} (h : TupRel t1 t2) :
     DirRel (vmodelFinish c t1).1 (vmodelFinish c t2).1 ∧ StSim (vmodelFinish c t1).2 (vmodelFinish c t2).2 := by
   obtain ⟨s1, v1, a1, m1⟩ := t1
@@ -218,9 +254,17 @@ theorem vmodelFinish_rel (c : Bool) {t1 t2 : St × Node × Option Node × Option
   simp only at hs hv ha hm
   subst hm
   unfold vmodelFinish
-  refine ⟨?_, hs⟩
-  simp only [DirRel]
-  exact ⟨ha, transformedArg_rel _ _ _ ha, trivial, hv⟩
+  simp only
+  rw [isAssignmentTarget_rel _ v1 v2 (Nat.le_refl _) hv]
+  by_cases hb : isAssignmentTarget v2 = true
+  · simp only [hb, if_true]
+    refine ⟨?_, hs⟩
+    simp only [DirRel]
+    exact ⟨ha, transformedArg_rel _ _ _ ha, trivial, hv⟩
+  · simp only [hb, Bool.false_eq_true, if_false]
+    refine ⟨?_, hs.err _⟩
+    simp only [DirRel]
+    exact ⟨ha, transformedArg_rel _ _ _ ha, trivial, HintRel.refl _⟩
 
 theorem parseVModel_rel {v1 v2 : Node} (hv : HintRel v1 v2) (c : Bool) {a1 a2 : Option Node} (ha : OptRel a1 a2) (r : List String)
     {s1 s2 : St} (hs : StSim s1 s2) :
